@@ -236,7 +236,7 @@ class TelnetTransport(Transport):
                     self._raw_buf += buf
                 else:
                     self._cooked_buf += buf
-            except EOFError as exc:
+            except (EOFError, OSError) as exc:
                 raise ScrapliConnectionError(
                     "encountered EOF reading from transport; typically means the device closed the "
                     "connection"
@@ -263,4 +263,9 @@ class TelnetTransport(Transport):
             raise ScrapliConnectionNotOpened
         if self.socket.sock is None:
             raise ScrapliConnectionNotOpened
-        self.socket.sock.send(channel_input)
+        try:
+            self.socket.sock.send(channel_input)
+        except OSError as exc:
+            raise ScrapliConnectionError(
+                "failed writing to transport; typically means the device closed the connection"
+            ) from exc
